@@ -384,27 +384,71 @@ def check_deserializer(ctx, lib):
         if ok:
             other = {x for x in reach_avoiding(b, ve["otherwise"]) if edge_dominates(b, (sb, ve["otherwise"]), x)}
             ok = region_always_errs(b, other)
-            # Object: first entry taken, a second entry is an error, an empty map is an error
+            # Object: the visitor is reached only when a first entry exists and a second one does not (spelling-independent:
+            # nested matches, `if iter.next().is_some()`, or one match on the pair (iter.next(), iter.next()))
             nx = [(x, b.blocks[x]["term"]) for x in sorted(arms["Object"]) if b.blocks[x]["term"]["k"] == "call" and b.blocks[x]["term"]["callee"] == "std::iter::Iterator::next"]
             ok = ok and len(nx) == 2
-            ve_calls = [t for _, t in b.calls() if t["callee"].endswith("visit_enum")]
+            ve_calls = [(x, t) for x, t in b.calls() if t["callee"].endswith("visit_enum")]
             ok = ok and len(ve_calls) == 1
             if ok:
-                e = o.of_operand(ve_calls[0]["args"][1])
+                e = o.of_operand(ve_calls[0][1]["args"][1])
                 ok = ms(e, lambda x: x[0] == "agg" and x[1] == "variable::EnumDeserializer::EnumDeserializer")
-                # second next(): Some -> Err
-                x2, t2 = nx[1]
-                sw2 = t2["t"]
-                be = br.bool_edges(sw2)
-                iss = [t for _, t in b.calls() if t["callee"] == "std::option::Option::<T>::is_some"]
-                ok = ok and len(iss) == 1
-                if ok:
-                    sblk = iss[0]["t"]
-                    be = br.bool_edges(sblk)
-                    ok = be is not None and region_always_errs(b, {y for y in reach_avoiding(b, be[0]) if edge_dominates(b, (sblk, be[0]), y)})
-                # first next(): None -> Err
-                ve1 = br.variant_edges(nx[0][1]["t"])
-                ok = ok and ve1 is not None and region_always_errs(b, {y for y in reach_avoiding(b, ve1["edges"].get("None", ve1["otherwise"])) if edge_dominates(b, (nx[0][1]["t"], ve1["edges"].get("None", ve1["otherwise"])), y)})
+                first, second = (nx[0][0], nx[1][0]) if b.dominates(nx[0][0], nx[1][0]) else (nx[1][0], nx[0][0])
+
+                def root_call(pl, depth=0):
+                    """Block of the call whose result this place is (through moves and a tuple built and taken apart)."""
+                    if depth > 6:
+                        return None
+                    l = pl["l"]
+                    defs = b.assigns_to(l)
+                    if len(defs) != 1:
+                        return None
+                    blk_, i_, rv = defs[0]
+                    if i_ == "term":
+                        return blk_
+                    if rv["k"] == "use" and rv["op"].get("k") in ("copy", "move"):
+                        return root_call(rv["op"], depth + 1)
+                    if rv["k"] == "ref":
+                        return root_call(rv["place"], depth + 1)
+                    if rv["k"] == "agg" and rv.get("ak") == "tuple":
+                        fs_ = [e_ for e_ in pl["p"] if isinstance(e_, dict) and "f" in e_]
+                        if fs_ and fs_[0]["f"] < len(rv["ops"]) and rv["ops"][fs_[0]["f"]].get("k") in ("copy", "move"):
+                            return root_call(rv["ops"][fs_[0]["f"]], depth + 1)
+                    return None
+
+                # the blocks through which the Object arm is left towards the visitor (the String arm joins there too)
+                reg = set(arms["Object"])
+                vis = ve_calls[0][0]
+                exits = sorted(x for x in reg if any(y not in reg and vis in reach_avoiding(b, y) for y in b.succs()[x]))
+                ok = ok and bool(exits)
+                for vb in exits:
+                  some_first = none_second = False
+                  for sb2, sw2 in br.switches():
+                      ve2 = br.variant_edges(sb2)
+                      if ve2 and ve2["adt"] == "std::option::Option":
+                          rc = root_call(ve2["place"])
+                          if rc == first and "Some" in ve2["edges"] and edge_dominates(b, (sb2, ve2["edges"]["Some"]), vb) and ve2["edges"]["Some"] != ve2["edges"].get("None", ve2["otherwise"]):
+                              some_first = True
+                          none_t = ve2["edges"].get("None", ve2["otherwise"])
+                          if rc == second and none_t != ve2["edges"].get("Some") and edge_dominates(b, (sb2, none_t), vb):
+                              none_second = True
+                      be2 = br.bool_edges(sb2)
+                      if be2:
+                          for t3 in (t for _, t in b.calls() if t["callee"] in ("std::option::Option::<T>::is_some", "std::option::Option::<T>::is_none")):
+                              if t3["t"] == sb2 or b.blocks[sb2]["term"]["discr"].get("l") == t3["dest"]["l"]:
+                                  rc = root_call(t3["args"][0])
+                                  want_edge = be2[1] if t3["callee"].endswith("is_some") else be2[0]
+                                  if rc == second and edge_dominates(b, (sb2, want_edge), vb):
+                                      none_second = True
+                  ok = ok and some_first and none_second
+                # and everything else in the Object arm that returns is an error
+                rets_ok = True
+                for x in arms["Object"]:
+                    tx = b.blocks[x]["term"]
+                    for st in b.blocks[x]["stmts"]:
+                        if st["k"] == "assign" and st["place"]["l"] == 0 and not st["place"]["p"] and st["rv"]["k"] == "agg" and st["rv"].get("variant") == "Ok":
+                            rets_ok = False
+                ok = ok and rets_ok
         n += 1
         ctx.check(ok, rule, "deserialize_enum", "a String is a unit-like variant, a single-entry Object is (variant, content); an empty or multi-entry map or any other kind is an error", b.span)
     # VariantAccess
